@@ -3,7 +3,7 @@ Spec: FiberStep.tla (step controller incl. IEEE specials, safety + termination),
 energies, exact solutions on lattices, self-convergence)."""
 import random, math, warnings
 import numpy as np
-from ..core import deadline, import_repo, MachineryError
+from ..core import deadline, import_repo, MachineryError, fresh_repo
 
 LEVEL = "model_checking"
 
@@ -58,7 +58,7 @@ def run(ctx):
     # ------------------------------------------------------------------ traced random calls inside the statement's box
     for it in range(60 if T else 24):
         setgv(it)
-        n = rnd.choice([256, 512, 1000])
+        n = rnd.choice([255, 512, 1001])
         npol = 1 + it % 2
         lead0 = it % 3 == 0
         rs = np.random.RandomState(it)
@@ -78,11 +78,15 @@ def run(ctx):
         fld = np.array(fld, dtype=complex)
         if lead0:
             fld[..., :5] = 0
+        if it % 6 == 5:
+            fld = fld * math.sqrt(1e-3 / peak(fld))        # weak signal: the first adaptive step is longer than the fibre (overshoot + negative last step)
         x = optical_signal(fld)
         x.signal.flags.writeable = False
         P = peak(fld)
         L = rnd.uniform(1, 100)
         gamma = min(rnd.uniform(0.2, 5), 10.0 / (P * L))
+        if it % 6 == 5:
+            L, gamma = rnd.uniform(5, 30), rnd.uniform(0.5, 1.5)
         al, b2, b3 = rnd.choice([0, 0.2, 0.5]), rnd.uniform(-25, 25), rnd.uniform(-0.2, 0.2) * rnd.choice([0, 1])
         phi = rnd.choice([0.1, 0.05, 0.01] + ([5e-4] if T and gamma * P * L < 1 else []))
         out, log = traced(x, length=L, alpha=al, beta_2=b2, beta_3=b3, gamma=gamma, phi_max=phi)
@@ -111,8 +115,8 @@ def run(ctx):
             law("1pol=x-row-of-2pol-with-empty-y", so + 1, two.signal[0] + 1)
     # ------------------------------------------------------------------ exact solutions
     setgv(0)
-    n = 512
     for it in range(30 if T else 12):
+        n = 512 if it % 2 else 511
         rs = np.random.RandomState(200 + it)
         P0 = rs.uniform(0.01, 0.4)
         levels = rs.randint(0, 4, n)                      # |in|^2 in {0, P0, 2P0, 3P0}
@@ -181,6 +185,20 @@ def run(ctx):
         events.append({"kind": "order", "name": "self-convergence-shrinks", "coarse_ppm": int(d[0.08] * 1e6), "fine_ppm": int(d[0.01] * 1e6), "factor": 8})
         meta.append(("order", "self"))
         ctx.case(("selfconv", b2 > 0), {"self-convergence": d})
+    # history independence: the same fibre and record length under another sampling rate before
+    for it, (cfgA, cfgB) in enumerate([(dict(sps=16, R=10e9), dict(sps=32, R=10e9)), (dict(sps=8, R=25e9), dict(sps=16, R=10e9))]):
+        rs = np.random.RandomState(400 + it)
+        f = (rs.randn(256) + 1j * rs.randn(256)) * 0.1
+        kw = dict(length=20.0, alpha=0.2, beta_2=-20.0, beta_3=0.1, gamma=1.5, phi_max=0.05)
+        with warnings.catch_warnings():
+            warnings.simplefilter("ignore")
+            gv(**cfgA); FIBER(optical_signal(f), **kw)
+            gv(**cfgB); after = FIBER(optical_signal(f), **kw).signal
+            with fresh_repo() as lib:
+                lib["typing"].gv(**cfgB)
+                fresh = lib["devices"].FIBER(lib["typing"].optical_signal(f), **kw).signal
+        law("result-independent-of-call-history", after + 1, fresh + 1)
+        ctx.case(("history", it))
     gv.clean()
     ctx.assumptions.append("convergence to the NLSE is decided against exact solutions the lattices provide (SPM with gamma*P0*L=(pi/2)m, fundamental soliton "
                            "for beta2*gamma>0: out=j^m*in, linear limit = DM) plus conservation and self-convergence; no independent numerical reference solver")
